@@ -79,6 +79,8 @@ struct World {
         o << "],\"find\":[";
         int top = im->MaxFileId() + 1; // ids 0 .. maxId+1
         for( int id = 0; id <= top; id++ ) o << ( id ? "," : "" ) << indexOfNode( im->FindFileId( id ) );
+        o << "],\"ver\":[";   // VerifyEntity( id, "Alpha" ) for the same ids
+        for( int id = 0; id <= top; id++ ) o << ( id ? "," : "" ) << im->VerifyEntity( id, "Alpha" );
         o << "],\"byA\":[";
         for( int f = 0; f <= n; f++ ) { SDAI_Application_instance * a = im->GetApplication_instance( "Alpha", f ); int r = 0; if( a != ENTITY_NULL ) { r = indexOfNode( im->FindFileId( a->StepFileId() ) ); if( r <= 0 || im->GetMgrNode( r - 1 )->GetApplication_instance() != a ) r = -2; } o << ( f ? "," : "" ) << r; }
         o << "],\"byB\":[";
